@@ -252,6 +252,12 @@ def _gen_pop_case(rnd, want, opened, dynamic_only=False):
                 for v_, d_ in ops[p_['op']]['vars'].items():
                     if d_[0] == 'in' and not any(tuple(c_['target']) == (pn_, p_['op'], v_) for c_ in conns):
                         d_[1] = round(vals.new(), 4)
+        # `params` may also give the per-unit values of an input variable that nothing is connected to
+        for pn_, p_ in pops.items():
+            for v_, d_ in ops[p_['op']]['vars'].items():
+                if d_[0] == 'in' and not any(tuple(c_['target']) == (pn_, p_['op'], v_) for c_ in conns) and rnd.random() < 0.4:
+                    p_['params'][v_] = [round(vals.new(), 4) for _ in range(p_['n'])]
+                    p_['input_params'] = True
         return {'ops': ops, 'pops': pops, 'conns': conns}, sorted(risk)
     raise RuntimeError('generator could not satisfy the constraints')
 
@@ -375,6 +381,8 @@ def run_case(case, ctx):
         for c in plan_['conns']:
             mech[{'matrix': 'matrix_connections', 'scalar': 'scalar_connections', 'coupling': 'coupling_connections'}[c['kind']]] = \
                 mech.get({'matrix': 'matrix_connections', 'scalar': 'scalar_connections', 'coupling': 'coupling_connections'}[c['kind']], 0) + 1
+            if any(p_.get('input_params') for p_ in plan_['pops'].values()):
+                mech['populations_with_input_params'] = 1
             if plan_['ops'][plan_['pops'][c['target'][0]]['op']].get('__integrator'):
                 mech['pure_input_integrators'] = 1
             if c['kind'] == 'coupling':
